@@ -103,6 +103,17 @@ def offs_first(timed):
 
 # ----------------------------------------------------------------------------- note automata
 
+def abs_order(timed):
+    """order in which an absolute list is judged: offs before ons at equal ticks — unless the stored list order itself is
+    ill-formed (e.g. after channels were merged by set_channel an on may precede the off of the same key at one tick; the
+    library's relative view keeps that stored order), in which case the stored order is returned and the caller sees the
+    problems, i.e. treats the input as not well-formed"""
+    pr, _ = automaton(timed)
+    if any(p[0] != "nonpositive" for p in pr):
+        return timed
+    return offs_first(timed)
+
+
 def automaton(timed):
     """Strict on/off automaton per (channel, pitch) in the given order.
     Returns (problems, notes); notes = [(ch, pitch, on, off, vel, on_msg, off_msg)]."""
